@@ -24,6 +24,7 @@ EXPLANATION = ("a: insert_proof writes `premise -> dependent` into ProofGraph.de
                "lost a justification and became invalid, passing the node's own handle as the new premise; add_justification sets "
                "valid = true; lookup_by_key filters on `valid`.")
 FLOORS = {"dependency_writes": 1}
+EXPLANATION += " b (added): the removal of justifications resting on the lost premise is conditional only on the dependent's node existing (not on its valid flag or anything else)."
 
 PG = "backward::proof_graph::ProofGraph"
 PN = "backward::proof_graph::ProofGraphNode"
